@@ -220,7 +220,25 @@ func emptyToNil(m map[string]string) map[string]string {
 	return m
 }
 
+// pruneUnused drops placeholders that no expression of the request uses
+// (generators may allocate aliases for operands they end up not using).
+func pruneUnused(names map[string]string, values map[string]model.AV, exprs ...string) (map[string]string, map[string]model.AV) {
+	used := tokensOf(exprs...)
+	for k := range names {
+		if !used[k] {
+			delete(names, k)
+		}
+	}
+	for k := range values {
+		if !used[k] {
+			delete(values, k)
+		}
+	}
+	return names, values
+}
+
 func normOp(op model.Op) model.Op {
+	op.Names, op.Values = pruneUnused(op.Names, op.Values, op.Cond, op.Update, op.KeyCond, op.Filter, op.Projection)
 	if len(op.Names) == 0 {
 		op.Names = nil
 	}
